@@ -265,7 +265,18 @@ func (fr *FnRun) havocReachable(st *State, v Val, seen map[*Obj]bool) {
 	ex := fr.ex
 	switch x := v.(type) {
 	case *PtrV:
-		if x.Obj == nil || seen[x.Obj] {
+		if x.Obj == nil {
+			return
+		}
+		if len(x.Path) > 0 {
+			// pointer into an object: only that location (and what it reaches) is affected
+			cur := ex.load(st, x)
+			fr.havocReachable(st, cur, seen)
+			nv := ex.freshVal(x.Elem, ex.fresh(x.Obj.Name+".sub"))
+			ex.store(st, x, nv)
+			return
+		}
+		if seen[x.Obj] {
 			return
 		}
 		seen[x.Obj] = true
@@ -273,6 +284,7 @@ func (fr *FnRun) havocReachable(st *State, v Val, seen map[*Obj]bool) {
 		if ok {
 			fr.havocReachable(st, cur, seen)
 		}
+		st.checkWrite(x.Obj)
 		st.heap[x.Obj] = ex.materialise(x.Obj, ex.fresh(x.Obj.Name))
 		ex.assumeValid(st, &PtrV{Nil: tFalse, Obj: x.Obj, Elem: x.Obj.T}, types.NewPointer(x.Obj.T), 0)
 	case *SliceV:
@@ -426,8 +438,36 @@ func (fr *FnRun) applyContract(st *State, site ssa.Instruction, ctr *Contract, f
 		post["result"] = results[0]
 	}
 	penv := &Env{st: st, old: old, vars: post, fr: fr, pkg: ctr.Pkg}
+	// alias clauses `res == E` for reference-typed results bind the result instead of being assumed
+	skip := map[*Clause]bool{}
 	for _, en := range ctr.Ensures {
-		st.assume(fr.evalBool(en.E, penv))
+		if en.E.Kind == "bin" && en.E.Op == "==" && en.E.X.Kind == "ident" {
+			for i, rn := range ctr.Results {
+				if rn == en.E.X.Name && i < len(results) {
+					if _, scalar := results[i].(*Term); !scalar {
+						v := ex.force(st, fr.eval(en.E.Y, penv))
+						if _, isNil := v.(nilMarker); !isNil {
+							results[i] = v
+							post[rn] = v
+							if len(results) == 1 {
+								post["result"] = v
+							}
+							skip[en] = true
+						}
+					}
+				}
+			}
+		}
+	}
+	for _, en := range ctr.Ensures {
+		if skip[en] {
+			continue
+		}
+		t := fr.evalBool(en.E, penv)
+		if t.IsFalse() {
+			panic(abortf("postcondition of %s evaluates to false at this call: %s", callee, en.Src))
+		}
+		st.assume(t)
 	}
 	for _, cs := range ctr.Cases {
 		var pre []*Term
